@@ -1,8 +1,9 @@
 package main
 
 import (
-	"os"
 	"fmt"
+	"go/token"
+	"os"
 	"strings"
 
 	"golang.org/x/tools/go/ssa"
@@ -31,7 +32,7 @@ func ruleC08(r *Report) {
 	a := NewAnalysis(p)
 	br := &BoundsRules{R: r, A: a, S: sc}
 	sel := encCertSelector(p)
-	br.Check([]*ssa.Function{sel}, "C08.cert-index", boundsOpts{OnlySchemaDerived: true})
+	br.Check(append([]*ssa.Function{sel}, stringHelpersOf(p, sel)...), "C08.cert-index", boundsOpts{OnlySchemaDerived: true})
 }
 
 // encCertSelector: role = the IdpAuthnRequest method returning (*x509.Certificate, error) that reads KeyDescriptors.
@@ -151,34 +152,74 @@ func checkDowngrade(r *Report, p *Prog) {
 	// skip conditions of descriptors: the assignments of the certificate string are guarded only by the use
 	// attribute and the presence of certificate data
 	n := 0
-	for _, b := range sel.Blocks {
-		for _, in := range b.Instrs {
-			ph, ok := in.(*ssa.Phi)
-			if !ok || ph.Type().String() != "string" {
+	judge := func(fn *ssa.Function, fcx *FuncCtx, ap string, at *ssa.BasicBlock) {
+		n++
+		cnd := fcx.Cond(at)
+		var extra []string
+		for _, name := range B2.Support(cnd) {
+			ai := a2.Atoms[name]
+			if ai == nil {
 				continue
 			}
-			for i, e := range ph.Edges {
-				ap := fs.AP(e)
-				if !strings.Contains(ap, "X509Certificates") {
-					continue
-				}
-				n++
-				pred := ph.Block().Preds[i]
-				cnd := fs.Cond(pred)
-				var extra []string
-				for _, name := range B2.Support(cnd) {
-					ai := a2.Atoms[name]
-					if ai == nil {
+			j := strings.Join(ai.Args, " ")
+			if strings.Contains(j, ".Use") || strings.Contains(j, "X509Certificates") || strings.HasPrefix(ai.Args[0], "phi#") || strings.HasPrefix(ai.Args[0], "p:") && fn != sel {
+				continue
+			}
+			extra = append(extra, name)
+		}
+		cons := fmt.Sprintf("%s: certificate taken from a key descriptor [%s]", p.FnName(fn), ap)
+		r.Check(len(extra) == 0, rule, cons, p.InstrPos(at.Instrs[len(at.Instrs)-1]), "guarded only by use and certificate presence", "a descriptor that carries an encryption certificate can be skipped depending on "+strings.Join(extra, ", ")+": the response then silently falls back to cleartext")
+	}
+	scanFns := append([]*ssa.Function{sel}, stringHelpersOf(p, sel)...)
+	for _, fn := range scanFns {
+		fcx := a2.Ctx(fn)
+		fcx.ensureConds()
+		r.Fn(p.FnName(fn))
+		for _, b := range fn.Blocks {
+			for _, in := range b.Instrs {
+				switch x := in.(type) {
+				case *ssa.Phi:
+					if x.Type().String() != "string" {
 						continue
 					}
-					j := strings.Join(ai.Args, " ")
-					if strings.Contains(j, ".Use") || strings.Contains(j, "X509Certificates") || strings.HasPrefix(ai.Args[0], "phi#") {
-						continue
+					for i, e := range x.Edges {
+						if ap := fcx.AP(e); strings.Contains(ap, "X509Certificates") {
+							judge(fn, fcx, ap, x.Block().Preds[i])
+						}
 					}
-					extra = append(extra, name)
+				case *ssa.Return:
+					if fn != sel && len(x.Results) == 1 {
+						if _, isPhi := x.Results[0].(*ssa.Phi); !isPhi {
+							if ap := fcx.AP(x.Results[0]); strings.Contains(ap, "X509Certificates") {
+								judge(fn, fcx, ap, b)
+							}
+						}
+					}
 				}
-				cons := fmt.Sprintf("%s: certificate taken from a key descriptor [%s]", p.FnName(sel), ap)
-				r.Check(len(extra) == 0, rule, cons, p.InstrPos(pred.Instrs[len(pred.Instrs)-1]), "guarded only by use and certificate presence", "a descriptor that carries an encryption certificate can be skipped depending on "+strings.Join(extra, ", ")+": the response then silently falls back to cleartext")
+			}
+		}
+		// a scan over the key descriptors is abandoned only with a certificate in hand: no exit from the loop body
+		// (return or break) delivers the empty string or leaves the running choice unchanged
+		for _, b := range fn.Blocks {
+			hs := loopHeadersOf(b)
+			if len(hs) == 0 {
+				continue
+			}
+			overDescriptors := false
+			for _, h := range hs {
+				for _, in := range h.Instrs {
+					if bo, ok := in.(*ssa.BinOp); ok && bo.Op == token.LSS {
+						if la := lenArg(bo.Y); la != nil && strings.Contains(fcx.AP(la), "KeyDescriptors") {
+							overDescriptors = true
+						}
+					}
+				}
+			}
+			if !overDescriptors {
+				continue
+			}
+			if rt, ok := b.Instrs[len(b.Instrs)-1].(*ssa.Return); ok && fn != sel && len(rt.Results) == 1 && isEmptyStringConst(rt.Results[0]) {
+				r.Bad(rule, fmt.Sprintf("%s: the scan over the key descriptors ends only with a certificate or at the last descriptor", p.FnName(fn)), p.InstrPos(rt), "the function returns \"\" from inside the loop: the first descriptor of the wanted use that carries no certificate ends the search, later descriptors with a certificate are never looked at, and the response falls back to cleartext")
 			}
 		}
 	}
@@ -607,4 +648,25 @@ func checkSPSameChecks(r *Report, p *Prog, sc *Scope) {
 		}
 		r.Check(ok, rule, fmt.Sprintf("%s: decrypted element goes to the common assertion parser with the caller's own context", p.FnName(caller)), p.InstrPos(cs.Instr.(ssa.Instruction)), "parseAssertion(decrypted, ids, now, token) under err == nil", "the decrypted assertion is not handed to the common assertion parser with the caller's request IDs, time and signature token")
 	}
+}
+
+// stringHelpersOf: library functions returning a single string that fn calls directly (a selection loop factored out).
+func stringHelpersOf(p *Prog, fn *ssa.Function) []*ssa.Function {
+	var out []*ssa.Function
+	seen := map[*ssa.Function]bool{}
+	for _, b := range fn.Blocks {
+		for _, in := range b.Instrs {
+			c, ok := in.(*ssa.Call)
+			if !ok || c.Call.StaticCallee() == nil {
+				continue
+			}
+			h := c.Call.StaticCallee()
+			if seen[h] || !p.InLibrary(h) || len(h.Blocks) == 0 || h.Signature.Results().Len() != 1 || !isStringType(h.Signature.Results().At(0).Type()) {
+				continue
+			}
+			seen[h] = true
+			out = append(out, h)
+		}
+	}
+	return out
 }
